@@ -332,6 +332,10 @@ for pid, nm in (("C05", "c05_store_sweep_async"), ("C04", "c04_store_sweep_async
     kw = {} if pid == "C05" else {"alias_of": "c05_store_sweep_async"}
     H(pid, nm, "store", SWFA, SWB + "; the async flavour's sweep (a plain loop; the sync flavour's iterator chain is thorough-tier only); policy cost/remove are recorders", timeout=7200, mem_gb=50, tier="thorough", features="sync,async", **kw)
 
+# a refused write must leave deadline and expiry index alone: also what C03 (deadline) and C05 (reclaimed on time) rest on
+H("C03", "c03_store_veto_update", "store", STF, SB + TTLB + "; validator vetoes: the resident entry keeps its deadline", timeout=1200, cover_tags=["update"], cover_optional=["update applied"], alias_of="c09_store_veto_update")
+H("C05", "c05_store_veto_update_em", "store", STF, SB + TTLB + "; validator vetoes: the resident entry stays filed under its own deadline", timeout=1800, cover_tags=["update"], cover_optional=["update applied"], mem_gb=28, alias_of="c09_store_veto_update_em")
+IDX["C05"]["assumptions"] += [LOCKS]
 # more cross-property aliases
 H("C02", "c02_new_wiring", "cache::sync", WIRE, WIREB + "; a New item for an already resident key (stale duplicate) must not overwrite the newer value", timeout=1800, cover_tags=["new"], alias_of="c06_new_wiring")
 IDX["C02"]["assumptions"].append(WIREA)
